@@ -19,7 +19,7 @@ stationary covariance (runtime linear algebra).
 """
 import ast
 
-from ..common import get_index, nf, check_equal, same_value
+from ..common import get_index, nf, check_equal, same_value, purity_obligations
 from ..fx import FX
 from ..index import norm_text
 from ..interp import Interp, Obj, has_unknown
@@ -143,6 +143,25 @@ def run(rep, tier, root=None):
                       "nx_size = %s" % nf(nxv), init.where())
             rep.check(slv is not None and nxv is not None and same_value(slv, f_ * nxv), "S6.sizes", tag + ": stencil_length = factor * nx_size",
                       "stencil_length = %s" % nf(slv), init.where())
+    # ---- S7 the recursion matrices are the exact ones on every construction path (necessary for the von Karman covariance to
+    #         be the stationary covariance of the row recursion); S8 no state shared between instances
+    for cname in ("PhaseScreenVonKarman", "PhaseScreenKolmogorov"):
+        cls = ix.cls(MOD, cname)
+        m, I, o, paths = run_method(ix, cls, "makeAMatrix")
+        a_ = o.attrs.get("A_mat")
+        want = Rat.atom(Fn("dot", (A("cov_mat_xz"), Rat.atom(Fn("inv", (A("cov_mat_zz"),))))))
+        rep.check(a_ is not None and same_value(a_, want), "S7.exact-recursion", "%s.makeAMatrix: A = Cov_xz . inv(Cov_zz), or construction fails" % cls.fq,
+                  "A = %s: with an approximate inverse the recursion x -> A x + B b no longer has the von Karman covariance as its "
+                  "stationary covariance and can be unstable (screen values grow without bound)" % nf(a_, 200), m.where())
+        m, I, o, paths = run_method(ix, cls, "makeBMatrix")
+        b_ = o.attrs.get("B_mat")
+        bbt = A("cov_mat_xx") - Rat.atom(Fn("dot", (A("A_mat"), A("cov_mat_zx"))))
+        wantb = Rat.atom(Fn("dot", (Rat.atom(Fn("svd_u", (bbt,))), Rat.atom(Fn("diagmat", (Rat.atom(Fn("svd_w", (bbt,))) ** 0.5,))))))
+        rep.check(b_ is not None and same_value(b_, wantb), "S7.exact-recursion", "%s.makeBMatrix: B B^T = Cov_xx - A Cov_zx" % cls.fq,
+                  "B = %s" % nf(b_, 200), m.where())
+    purity_obligations(rep, ix, [f for f in mod.all_functions()], "S8.no-shared-state",
+                       "the rows added to one screen depend on other screens created in the same process",
+                       internal_out_params={(MOD + ":calc_seperations_fast", "seperations")})
     # find_allowed_size: loop exit condition bounds the result from below
     fa = ix.func(MOD, "find_allowed_size")
     rep.functions_analysed.add(fa.fq)
